@@ -290,9 +290,9 @@ def impl(case):
                         bad.append([sx_str('enum source ' + name), [sx_str(e)]])
                     if list(map(id, machine.get_transitions(e, dest=mem))) != list(map(id, machine.get_transitions(e, dest=name))):
                         bad.append([sx_str('enum dest ' + name), [sx_str(e)]])
-            if en is not None and len(p) == 1:
-                # KF-C11-4: get_triggers(<nested Enum member>) resolves the member by its bare name; only
-                # top-level members are required to agree with the lookup by name
+            if en is not None:
+                # asked by Enum member (top-level or nested) = asked by path name (D40 fixed the lookup of
+                # nested members by their bare name)
                 if set(machine.get_triggers(en.member[tuple(p)])) != got:
                     bad.append([sx_str('enum get_triggers ' + name), []])
         return bad
